@@ -2,9 +2,12 @@
 From V Require Import lib.Base lib.Regex lib.RegexDecide lib.Utf8 gen.GenRegex gen.GenPolicy gen.GenEntities.
 From V Require Import model.Html model.HtmlUnescape model.Url model.UrlProc model.UrlSet model.GoStrings model.TContext
      model.TSanitize model.TSanitizers.
-From V Require Import spec.Rfc3986 spec.WhatwgUrl spec.HtmlSpec spec.TrurlSpec spec.UrlPrefixSpec.
+From V Require Import spec.Rfc3986 spec.WhatwgUrl spec.HtmlSpec spec.UrlPrefixSpec.
 From V Require Import proofs.RegexFacts proofs.RegexDecideFacts proofs.RegexSpecs proofs.Utf8Facts proofs.Utf8AsciiFacts
-     proofs.HtmlFacts proofs.TrurlFacts proofs.UrlFacts proofs.PolicyFacts.
+     proofs.HtmlFacts proofs.UrlFacts.
+(* (proofs/TrurlFacts.v and proofs/PolicyFacts.v prove neighbouring facts -- the escaping alphabet of
+   C13 and attr_chain_shape of C04 -- but take minutes to compile; the few lemmas needed here are
+   proved directly so that a check of C14 stays fast after the generated data changes) *)
 From Coq Require Import ZifyBool ZifyN ZifyNat.
 Local Open Scope N_scope.
 
@@ -62,7 +65,7 @@ Definition triplet_ok (c : N) : bool :=
   | [p; d1; d2] =>
       (p =? 37) && sp_hex d1 && sp_hex d2 && normalized_byte d1 && normalized_byte d2 &&
       negb (d1 =? 37) && negb (d2 =? 37) && (16 * hex_val_of d1 + hex_val_of d2 =? c) &&
-      TrurlSpec.is_lower_hex d1 && TrurlSpec.is_lower_hex d2
+      match pct_octet d1 d2 with Some x => x =? c | None => false end
   | _ => false
   end.
 Lemma triplet_table : forallb triplet_ok all_bytes = true.
@@ -71,14 +74,16 @@ Proof. vm_compute. reflexivity. Qed.
 Lemma pct_encode_shape c : c < 256 -> exists d1 d2,
   pct_encode c = [37; d1; d2] /\ sp_hex d1 = true /\ sp_hex d2 = true /\
   normalized_byte d1 = true /\ normalized_byte d2 = true /\ (d1 =? 37) = false /\ (d2 =? 37) = false /\
-  16 * hex_val_of d1 + hex_val_of d2 = c.
+  16 * hex_val_of d1 + hex_val_of d2 = c /\ pct_octet d1 d2 = Some c.
 Proof.
   intros Hc. pose proof (forall_byte _ triplet_table c Hc) as E. unfold triplet_ok in E.
   unfold pct_encode in *. exists (hex_digit (c / 16)), (hex_digit (c mod 16)).
+  apply andb_true_iff in E as [E Eo].
   repeat (apply andb_true_iff in E as [E ?]).
   apply N.eqb_eq in E.
   repeat split; try assumption; try (apply negb_true_iff; assumption).
-  apply N.eqb_eq. assumption.
+  - apply N.eqb_eq. assumption.
+  - destruct (pct_octet _ _) as [x|]; [|discriminate]. apply N.eqb_eq in Eo. congruence.
 Qed.
 
 Lemma url_processor_cons norm c t :
@@ -223,7 +228,7 @@ Proof.
     destruct (c =? 37) eqn:E37.
     + apply N.eqb_eq in E37; subst c. rewrite <- keep_byte_37. exact K.
     + rewrite <- (keep_norm_other c t Hc E37). exact K.
-  - destruct (pct_encode_shape c Hc) as (d1 & d2 & -> & H1 & H2 & _ & _ & _ & _ & Ev).
+  - destruct (pct_encode_shape c Hc) as (d1 & d2 & -> & H1 & H2 & _ & _ & _ & _ & Ev & _).
     cbn [app]. rewrite norm_rel_cons. apply orb_true_iff. right.
     rewrite H1, H2, IH, Ev, N.eqb_refl, !andb_true_r.
     destruct (c =? 37) eqn:E37; [|reflexivity].
@@ -233,16 +238,19 @@ Qed.
 (* ================================================================== *)
 (* Part B: query escaping; HTML escaping and the browser's decoding leave such text alone *)
 
-Lemma unreserved_sp c : Rfc3986.unreserved c = sp_unreserved c.
-Proof.
-  unfold Rfc3986.unreserved, Rfc3986.is_alpha, Rfc3986.is_digit, sp_unreserved, sp_alnum, sp_alpha, sp_digit. lia.
-Qed.
-
 Lemma sp_unreserved_not_pct c : sp_unreserved c = true -> (c =? 37) = false.
 Proof. unfold sp_unreserved, sp_alnum, sp_alpha, sp_digit. lia. Qed.
 
-Lemma lower_hex_sp c : TrurlSpec.is_lower_hex c = true -> sp_hex c = true.
-Proof. unfold TrurlSpec.is_lower_hex, Rfc3986.is_digit, sp_hex, sp_digit. lia. Qed.
+Lemma keep_escape_table :
+  forallb (fun c => Bool.eqb (keep_byte false c []) (sp_unreserved c)) all_bytes = true.
+Proof. vm_compute. reflexivity. Qed.
+
+Lemma keep_escape c t : c < 256 -> keep_byte false c t = sp_unreserved c.
+Proof.
+  intros Hc. pose proof (forall_byte _ keep_escape_table c Hc) as E. apply eqb_prop in E. rewrite <- E.
+  unfold keep_byte. destruct (mem_N c url_reserved); [reflexivity|].
+  destruct (mem_N c url_unreserved_marks); [reflexivity|]. destruct (c =? 37); reflexivity.
+Qed.
 
 Lemma unreserved_or_pct_other c t : sp_unreserved c = true -> unreserved_or_pct (c :: t) = unreserved_or_pct t.
 Proof. intros H. cbn [unreserved_or_pct]. rewrite (sp_unreserved_not_pct c H), H. reflexivity. Qed.
@@ -250,7 +258,7 @@ Proof. intros H. cbn [unreserved_or_pct]. rewrite (sp_unreserved_not_pct c H), H
 Lemma escape_unreserved_or_pct (v : bytes) : wf_bytes v -> unreserved_or_pct (query_escape_url v) = true.
 Proof.
   unfold query_escape_url. induction 1 as [|c t Hc Ht IH]; [reflexivity|].
-  rewrite url_processor_cons, keep_unreserved, unreserved_sp. destruct (sp_unreserved c) eqn:U.
+  rewrite url_processor_cons, (keep_escape c t Hc). destruct (sp_unreserved c) eqn:U.
   - rewrite unreserved_or_pct_other by exact U. exact IH.
   - destruct (pct_encode_shape c Hc) as (d1 & d2 & -> & H1 & H2 & _).
     cbn [app unreserved_or_pct N.eqb Pos.eqb]. rewrite H1, H2, IH. reflexivity.
@@ -261,11 +269,22 @@ Definition plain_byte (c : N) : Prop := sp_unreserved c = true \/ c = 37 \/ sp_h
 
 Lemma escape_plain (v : bytes) : wf_bytes v -> Forall plain_byte (query_escape_url v).
 Proof.
-  intros H. rewrite query_escape_spec. pose proof (escape_delimiter_free v H) as D. unfold delimiter_free in D.
-  eapply Forall_impl; [|exact D]. intros c [U|[E|L]].
-  - left. rewrite <- unreserved_sp. exact U.
-  - right; left; exact E.
-  - right; right. apply lower_hex_sp. exact L.
+  unfold query_escape_url. induction 1 as [|c t Hc Ht IH]; [constructor|].
+  rewrite url_processor_cons, (keep_escape c t Hc). destruct (sp_unreserved c) eqn:U.
+  - constructor; [left; exact U | exact IH].
+  - destruct (pct_encode_shape c Hc) as (d1 & d2 & -> & H1 & H2 & _). cbn [app].
+    constructor; [right; left; reflexivity|]. constructor; [right; right; exact H1|].
+    constructor; [right; right; exact H2 | exact IH].
+Qed.
+
+(* percent-decoding gives the data back *)
+Lemma escape_roundtrip (v : bytes) : wf_bytes v -> pct_decode (query_escape_url v) = v.
+Proof.
+  unfold query_escape_url. induction 1 as [|c t Hc Ht IH]; [reflexivity|].
+  rewrite url_processor_cons, (keep_escape c t Hc). destruct (sp_unreserved c) eqn:U.
+  - cbn [pct_decode]. rewrite (sp_unreserved_not_pct c U), IH. reflexivity.
+  - destruct (pct_encode_shape c Hc) as (d1 & d2 & -> & _ & _ & _ & _ & _ & _ & _ & Eo).
+    cbn [app pct_decode N.eqb Pos.eqb]. rewrite Eo, IH. reflexivity.
 Qed.
 
 Lemma plain_byte_range c : plain_byte c -> 37 <= c < 127.
@@ -347,7 +366,7 @@ Proof.
   intros H q. pose proof (escape_plain v H) as P.
   destruct (html_roundtrip_inert q (plain_inert q P)) as [E1 E2].
   split; [exact E1|]. split; [exact E2|]. split; [apply escape_unreserved_or_pct; exact H|].
-  split; [apply escape_alphabet_roundtrip; exact H|].
+  split; [apply escape_roundtrip; exact H|].
   intros c Hin. apply plain_byte_excludes. unfold q in Hin. rewrite Forall_forall in P. apply P. exact Hin.
 Qed.
 
@@ -980,3 +999,128 @@ Qed.
 Example normalized_example :
   normalize_url (B "a b%41%4<%zz'") = B "a%20b%41%254%3c%25zz%27" /\ query_escape_url (B "a&b=%41") = B "a%26b%3d%2541".
 Proof. split; vm_compute; reflexivity. Qed.
+
+(* ================================================================== *)
+(* Part F: the remaining two bridges *)
+Lemma bridge_tru_delim_ok : bridge_tru_delim = true. Proof. vm_compute. reflexivity. Qed.
+Lemma bridge_dotdot14_ok : bridge_dotdot14 = true. Proof. vm_compute. reflexivity. Qed.
+
+(* a prefix without '/', '?', '#' is no TrustedResourceURL prefix either *)
+Theorem prefix_rejected_scheme_tru (p : bytes) :
+  could_complete_to_scheme (html_unescape p) = true -> validate_tru_prefix p = false.
+Proof.
+  unfold could_complete_to_scheme, validate_tru_prefix. intros H. apply andb_true_iff in H as [Hd _].
+  apply negb_true_iff in Hd.
+  destruct (decode_url_prefix p) as [d|] eqn:E; [|reflexivity].
+  apply decode_url_prefix_some in E as (-> & _).
+  destruct (is_safe_tru_prefix (html_unescape p)) eqn:S; [|reflexivity]. exfalso.
+  unfold is_safe_tru_prefix in S. apply (go_incl _ _ bridge_tru_delim_ok) in S.
+  apply (go_match_cls_inv _ _ (wf_decode _)) in S as (c & Hin & Hc).
+  assert (Hc' : (c = 35 \/ c = 47)) by (unfold in_ranges, in_range in Hc; cbn [existsb fst snd] in Hc; lia).
+  assert (Hin' : In c (html_unescape p)) by (apply (proj2 (decode_in_ascii _ c ltac:(lia))); exact Hin).
+  assert (X : existsb url_delim (html_unescape p) = true).
+  { apply existsb_exists. exists c. split; [exact Hin'|]. unfold url_delim. lia. }
+  congruence.
+Qed.
+
+(* dot-dot in the data, triplets for '.' counted *)
+Definition is_dot (d : bytes) : Prop := d = [46] \/ d = [37; 50; 101] \/ d = [37; 50; 69].
+
+Lemma dot_at_some (s r : bytes) : dot_at s = Some r -> exists d, s = d ++ r /\ is_dot d.
+Proof.
+  unfold dot_at. destruct s as [|c s]; [discriminate|].
+  destruct (c =? 46) eqn:E46.
+  - apply N.eqb_eq in E46. subst c. intros H. inversion H; subst. exists [46]. split; [reflexivity | left; reflexivity].
+  - destruct s as [|x [|e s]]; try discriminate.
+    destruct ((c =? 37) && (x =? 50) && ((e =? 101) || (e =? 69))) eqn:E; [|discriminate].
+    intros H. inversion H; subst. apply andb_true_iff in E as [E Ee]. apply andb_true_iff in E as [Ec Ex].
+    apply N.eqb_eq in Ec, Ex. subst c x. apply orb_true_iff in Ee as [Ee|Ee]; apply N.eqb_eq in Ee; subst e.
+    + exists [37; 50; 101]. split; [reflexivity | right; left; reflexivity].
+    + exists [37; 50; 69]. split; [reflexivity | right; right; reflexivity].
+Qed.
+
+Lemma spec_dotdot_split (v : bytes) : spec_dotdot v = true ->
+  exists a d1 d2 b, v = a ++ d1 ++ d2 ++ b /\ is_dot d1 /\ is_dot d2.
+Proof.
+  induction v as [|c t IH]; [discriminate|]. cbn [spec_dotdot].
+  assert (Rec : spec_dotdot t = true -> exists a d1 d2 b, c :: t = a ++ d1 ++ d2 ++ b /\ is_dot d1 /\ is_dot d2).
+  { intros H. destruct (IH H) as (a & d1 & d2 & b & -> & H1 & H2). exists (c :: a), d1, d2, b. auto. }
+  destruct (dot_at (c :: t)) as [r|] eqn:D1; [|exact Rec].
+  destruct (dot_at r) as [r2|] eqn:D2; [|exact Rec].
+  intros _. destruct (dot_at_some _ _ D1) as (d1 & E1 & H1). destruct (dot_at_some _ _ D2) as (d2 & E2 & H2).
+  exists [], d1, d2, r2. rewrite E1, E2. auto.
+Qed.
+
+Lemma is_dot_ascii d : is_dot d -> Forall (fun c => c < 128) d /\ d <> [].
+Proof. intros [->|[->| ->]]; split; try discriminate; repeat constructor. Qed.
+
+Lemma is_dot_M d p n : is_dot d -> M S_dot p d n.
+Proof.
+  unfold S_dot. intros [->|[->| ->]].
+  - apply MAltL. constructor. reflexivity.
+  - apply MAltR. change [37; 50; 101] with ([37] ++ [50] ++ [101]).
+    constructor; [constructor; reflexivity|]. constructor; constructor; reflexivity.
+  - apply MAltR. change [37; 50; 69] with ([37] ++ [50] ++ [69]).
+    constructor; [constructor; reflexivity|]. constructor; constructor; reflexivity.
+Qed.
+
+Lemma decode_app_ascii_mid (a d r : bytes) : Forall (fun c => c < 128) d -> d <> [] ->
+  decode_runes (a ++ d ++ r) = decode_runes a ++ d ++ decode_runes r.
+Proof.
+  intros Hd Hne. destruct Hd as [|x d' Hx Hd']; [contradiction|]. cbn [app].
+  rewrite (decode_app_ascii a x (d' ++ r) Hx), (decode_ascii_prefix d' r Hd'). reflexivity.
+Qed.
+
+Lemma dotdot_spec_match (v : bytes) : spec_dotdot v = true -> go_match S_dotdot (decode_runes v) = true.
+Proof.
+  intros H. destruct (spec_dotdot_split v H) as (a & d1 & d2 & b & -> & H1 & H2).
+  destruct (is_dot_ascii d1 H1) as [A1 N1]. destruct (is_dot_ascii d2 H2) as [A2 N2].
+  apply (go_match_M _ _ (wf_decode _)).
+  rewrite (decode_app_ascii_mid a d1 (d2 ++ b) A1 N1).
+  assert (E : decode_runes (d2 ++ b) = d2 ++ decode_runes b).
+  { pose proof (decode_app_ascii_mid [] d2 b A2 N2) as X. exact X. }
+  rewrite E. exists (decode_runes a), (d1 ++ d2), (decode_runes b). split; [rewrite <- app_assoc; reflexivity|].
+  unfold S_dotdot. constructor; apply is_dot_M; assumption.
+Qed.
+
+Theorem dotdot_rejected (v : bytes) : contains_double_dot v = false -> spec_dotdot v = false.
+Proof.
+  intros H. destruct (spec_dotdot v) eqn:S; [|reflexivity].
+  pose proof (go_incl _ _ bridge_dotdot14_ok _ (dotdot_spec_match v S)) as G.
+  unfold contains_double_dot in H. congruence.
+Qed.
+
+Theorem tru_confined_all x o : wf_bytes (stringify x) ->
+  apply_chain [N_validateTRUSubst; N_queryEscapeURL; N_sanitizeHTML] x = Some o ->
+  contains_double_dot (stringify x) = false /\ spec_dotdot (stringify x) = false /\
+  o = query_escape_url (stringify x) /\ html_unescape o = query_escape_url (stringify x) /\
+  unreserved_or_pct (html_unescape o) = true /\ pct_decode (html_unescape o) = stringify x /\
+  ~ In 47 (html_unescape o) /\ ~ In 92 (html_unescape o).
+Proof.
+  intros Hw H. destruct (tru_confined x o Hw H) as (D & R). split; [exact D|]. split; [apply dotdot_rejected; exact D | exact R].
+Qed.
+
+Example dotdot_examples :
+  spec_dotdot (B "a/%2E./b") = true /\ contains_double_dot (B "a/%2E./b") = true /\
+  apply_chain [N_validateTRUSubst; N_queryEscapeURL; N_sanitizeHTML] (VStr (B "..")) = None /\
+  apply_chain [N_validateTRUSubst; N_queryEscapeURL; N_sanitizeHTML] (VStr (B "b/c")) = Some (B "b%2fc").
+Proof. repeat split; vm_compute; reflexivity. Qed.
+
+(* ================================================================== *)
+(* statements of props/C14.v that combine the above *)
+Theorem prefix_rejected_both (p : bytes) :
+  (has_ws_or_ctrl p = true \/ has_ws_or_ctrl (html_unescape p) = true \/
+   ends_with_partial_charref p = true \/ ends_with_partial_pct (html_unescape p) = true ->
+   decode_url_prefix p = None /\ validate_url_prefix p = false /\ validate_tru_prefix p = false) /\
+  (could_complete_to_scheme (html_unescape p) = true -> validate_url_prefix p = false /\ validate_tru_prefix p = false).
+Proof.
+  split; [apply (prefix_rejected p)|].
+  intros H. split; [apply prefix_rejected_scheme | apply prefix_rejected_scheme_tru]; exact H.
+Qed.
+
+Theorem prefix_scheme_fixed_outputs (p v : bytes) : validate_url_prefix p = true -> wf_bytes v ->
+  whatwg_scheme (decode_runes (html_unescape p ++ normalize_url v)) = whatwg_scheme (decode_runes (html_unescape p)) /\
+  whatwg_scheme (decode_runes (html_unescape p ++ query_escape_url v)) = whatwg_scheme (decode_runes (html_unescape p)).
+Proof.
+  intros H Hv. split; [apply prefix_scheme_fixed_normalized | apply prefix_scheme_fixed_escaped]; assumption.
+Qed.
